@@ -90,6 +90,55 @@ def lemma_path(via):
     return path
 
 
+def history_path(n_calls):
+    """histories of n_calls payloads drawn from two payloads A/B, THREE stub decoders whose accept/reject per payload is free:
+    catches state other than the remembered index (caches keyed on the payload, results kept from earlier calls, ...)"""
+    def path(eng, ctx):
+        import han.autodecoder as AD
+        orig = list(AD.AutoDecoder.payload_decoder_functions)
+        names = ["D0", "D1", "D2"]
+        acc = {(i, p): SBool(z3.Bool(f"acc{i}{p}")) for i in range(3) for p in "AB"}
+        verr = [SBool(z3.Bool(f"verr{i}")) for i in range(3)]
+
+        def mk(i):
+            def dec(payload):
+                p = "A" if payload == b"A-payload" else "B"
+                if acc[(i, p)]:
+                    return {"decoder": i, "payload": p}
+                raise (ValueError("no") if verr[i] else construct.ConstructError("no"))
+            return dec
+        try:
+            AD.AutoDecoder.payload_decoder_functions = [(names[i], mk(i)) for i in range(3)]
+            d = AD.AutoDecoder()
+            seq = ["AB"[eng.pick(2)] for _ in range(n_calls)]
+            w = {"sub": "history", "seq": seq, "acc": {f"{i}{p}": acc[(i, p)] for i in range(3) for p in "AB"}, "verr": verr}
+            ctx.witness = w
+            ctx.nontrivial()
+            prev, obs = None, []
+            for k, p in enumerate(seq):
+                try:
+                    r = d.decode_message_payload(b"A-payload" if p == "A" else b"B-payload")
+                except ENGINE_EXC:
+                    raise
+                except Exception as e:
+                    ctx.violation(f"{type(e).__name__} escapes AutoDecoder at call {k}", w)
+                    return
+                obs.append([r, d.previous_success_decoder])
+                start = prev or 0
+                first = next((i for i in [(start + j) % 3 for j in range(3)] if bool(acc[(i, p)])), None)
+                if first is None:
+                    ok = r is None and d.previous_success_decoder == (None if prev is None else names[prev])
+                else:
+                    ok = r == {"decoder": first, "payload": p} and d.previous_success_decoder == names[first]
+                    prev = first
+                if not ctx.check(z3.BoolVal(ok), f"call {k} of {''.join(seq)}: result {r}, remembered {d.previous_success_decoder}", w):
+                    return
+            ctx.obs = obs
+        finally:
+            AD.AutoDecoder.payload_decoder_functions = orig
+    return path
+
+
 OWN = {("aidon", "frame"): "Aidon_frame", ("kaifa", "frame"): "Kaifa_frame", ("kamstrup", "frame"): "Kamstrup_frame",
        ("aidon", "body"): "Aidon_notification_body", ("kaifa", "body"): "Kaifa_notification_body", ("kamstrup", "body"): "Kamstrup_notification_body"}
 
@@ -173,6 +222,8 @@ def scenarios(tier):
     out = [Scenario(f"lemma: one call from any remembered decoder, via {via}", lemma_path(via),
                     bounds={"remembered_decoder": "None | 0..6 (free)", "accept/reject": "free per decoder (2^7)", "rejecting exception": "ConstructError | ValueError (free per decoder)", "entry point": via},
                     domains=("mc",), frontier=5, assumptions=A, must_reach=("assert", "accepted", "nobody")) for via in ("payload", "dlms", "hdlc", "readout")]
+    out.append(Scenario(f"histories of {3 if q else 4} calls over two payloads with three stub decoders", history_path(3 if q else 4),
+                        bounds={"calls": 3 if q else 4, "payloads": "A | B per call", "decoders": "3 stubs, accept/reject free per (decoder, payload)"}, domains=("mc",), frontier=5, assumptions=A, replay_cap=150))
     layouts = [("aidon", "no_list_2"), ("kaifa", "no_list_2"), ("kaifa", "se_list"), ("kamstrup", "no_list_2_three_phase")] if q else \
         [("aidon", n) for n in ("no_list_1", "no_list_2", "no_list_3", "se_list")] + [("kaifa", n) for n in ("no_list_1", "no_list_2", "no_list_3", "se_list")] + \
         [("kamstrup", n) for n in ("no_list_1_three_phase", "no_list_2_single_phase", "no_list_2_three_phase", "no_list_1_single_phase_real_sample", "no_list_2_single_phase_real_sample", "se_list_real_sample")]
